@@ -14,13 +14,16 @@ to the live run by spawn ordinal (the j-th successful spawn, its k-th child).
 
 The daemon's own timers are owned by the harness on both sides (as in sim.py): a `tornado_sleep` is parked and fires
 only inside `settle`, in (nominal deadline, creation) order — on the live side not before its real duration has
-elapsed.  What is *not* controlled on the live side is everything the kernel does: process start-up, signal
-delivery, death, zombies, reparenting, waitpid, /proc.  The behaviour knobs of the scenario are rendered as follows:
+elapsed.  The *schedule* of the live run is thus the one of the simulated run (which is what makes the comparison
+insensitive to load); everything the kernel and the C library do is real: fork/exec and its failure, signal delivery to
+handlers / ignored / to zombies / to reaped pids, death and wait statuses, zombies, reparenting of orphans, waitpid(pid) and
+waitpid(-1), subprocess.Popen.poll and its caching, psutil status/children over /proc, the clock.  The behaviour knobs:
   term obey d / ignore   real signal handlers of the worker (dies by the signal after d ms / SIG_IGN)
-  kill_lat 0             the daemon's SIGKILL is delivered at once and the process is dead before kill() returns
-  kill_lat > 0           the SIGKILL is delivered late: the process stays alive until the daemon next sleeps (blocking
-                         time.sleep), a timer fires or the run settles — exactly the points at which virtual time advances in
-                         the simulated run — and then dies by SIGKILL whatever it was sent meanwhile
+                         delay 0: the process is dead (zombie) before kill() returns; delay > 0: the signal is handed to
+                         the kernel when the atomic step of the daemon ends — virtual time stands still during a step of the
+                         simulated run, so the worker is still there for everything else the step does — and no later timer
+                         of the daemon fires before the process is really dead (see LiveKernel, "signals")
+  kill_lat 0 / > 0       the same for the daemon's SIGKILL: dead before kill() returns / still alive until the step ends
   kids / kid_term        real forked children of the worker
   exec_fail              argv[0] does not exist: the real fork + failed exec path of subprocess
   spawn_ms               ignored (the real start-up takes what it takes)
@@ -48,7 +51,6 @@ from harness.sim import Blocked, enc                         # noqa: E402
 HERE = os.path.dirname(os.path.abspath(__file__))
 WORKER = os.path.join(HERE, "live_worker.py")
 TAGVAR = "VERIF_LIVE_TAG"
-DEFER_S = 0.002           # least delivery latency of a daemon SIGKILL to a worker whose behaviour says kill_lat > 0
 MAX_WAKES = 60            # timers fired per settle at most (both sides)
 ADV_MS = 150              # sim: virtual time granted after a settle / outside kill for pending deaths to resolve (> any obey delay)
 READY_S = 6.0             # a worker must have its handlers installed within this time
@@ -388,8 +390,8 @@ class LiveKernel(object):
         self.dpid = os.getpid()
         self.ident = {}              # pid -> starttime
         self.bh = {}                 # pid -> behaviour
-        self.deferred = []           # (due, pid, sig)
-        self.expect_dead = set()
+        self.held = {}               # pid -> (sig, nominal deadline): the deadly signal not yet handed to the kernel
+        self.doom = {}               # pid -> nominal ms by which the process is dead
         self.real_kill = os.kill
         self.inconclusive = None
         self.reaped = set()          # pids whose wait status has been collected
@@ -404,7 +406,7 @@ class LiveKernel(object):
         self.slept = 0
 
     def resolve(self):
-        self.deliver()
+        pass
 
     def give_up(self, why):
         if self.inconclusive is None:
@@ -420,28 +422,73 @@ class LiveKernel(object):
             return "g"
         return "z" if st[0] in "ZXx" else "r"
 
-    def deliver(self, force=False):
-        if not self.deferred:
-            return
-        now = time.monotonic()
-        keep = []
-        for due, pid, sig in self.deferred:
-            if force or due <= now:
-                if self.state(pid) != "g":
-                    try:
-                        self.real_kill(pid, sig)
-                    except ProcessLookupError:
-                        pass
-            else:
-                keep.append((due, pid, sig))
-        self.deferred = keep
+    # -- signals.  In the simulated run the effect of a signal comes `delay` ms of VIRTUAL time later, and virtual time stands
+    # still while the daemon works (one atomic step): a worker that was told to stop is still there for everything else the
+    # step does.  A real kernel gives no such guarantee — whether the worker is gone 5 ms later, when the daemon polls it or
+    # looks its children up, is decided by the load.  The live run therefore takes the same schedule as the simulated one:
+    #   delay 0 (obey 0, kill_lat 0)   the signal is sent and the process is dead (zombie) before kill() returns;
+    #   delay > 0                      the signal is HELD and handed to the kernel when the step ends (or the daemon blocks in
+    #                                  time.sleep); the process then takes its real `delay`; no timer of the daemon with a
+    #                                  later nominal deadline fires before the process is really dead;
+    #   no deadly effect               sent at once.
+    def _hold(self, pid, sig, delay):
+        # sim.Kernel._doom: of several deadly signals the one whose effect is due first decides how the process ends
+        if pid not in self.held or self.now + delay < self.held[pid][1]:
+            self.held[pid] = (sig, self.now + delay)
+        self.doom[pid] = min(self.doom.get(pid, 1 << 60), self.now + delay)
+
+    def flush(self):
+        held, self.held = self.held, {}
+        for pid, (sig, _) in held.items():
+            if self.state(pid) != "g":
+                try:
+                    self.real_kill(pid, sig)
+                except ProcessLookupError:
+                    pass
+
+    def await_dead(self, upto=None):
+        """every process doomed by nominal time `upto` (None: at all) is really dead"""
+        self.flush()
+        end = time.monotonic() + DEAD_S
+        while True:
+            left = [p for p, d in self.doom.items() if (upto is None or d <= upto) and self.state(p) == "r"]
+            if not left:
+                break
+            if time.monotonic() > end:
+                self.give_up("processes %r still alive %.0f s after a deadly signal" % (left, DEAD_S))
+            time.sleep(0.0005)
+        for p in [p for p, d in self.doom.items() if upto is None or d <= upto]:
+            del self.doom[p]
 
     def wait_dead(self, pid, why):
         end = time.monotonic() + DEAD_S
         while self.state(pid) == "r":
             if time.monotonic() > end:
                 self.give_up("pid %d (%s) not dead after %.0f s" % (pid, why, DEAD_S))
-            time.sleep(0.0005)
+            time.sleep(0.0002)
+
+    def _effect(self, pid, sig):
+        """None (no deadly effect) or the delay in ms after which the process is dead"""
+        b = self.bh[pid]
+        if sig == signal.SIGKILL:
+            return b.get("kill_lat", 0)
+        if sig == 0 or sig in IGNORED:
+            return None
+        t = b.get("term", ["obey", 0])
+        return (t[1] if len(t) > 1 else 0) if t[0] == "obey" else None
+
+    def _send(self, pid, sig, st):
+        if sig == 0 or st != "r":
+            return self.real_kill(pid, sig)            # a zombie takes any signal, nothing happens
+        d = self._effect(pid, sig)
+        if d is None:
+            return self.real_kill(pid, sig)
+        if d > 0:
+            return self._hold(pid, sig, d)
+        self.held.pop(pid, None)
+        self.real_kill(pid, sig)
+        self.wait_dead(pid, "signal %d, delay 0" % sig)
+        return None
 
     def kill(self, pid, sig):
         """os.kill of the daemon process: every signal the code under test sends goes through here"""
@@ -452,41 +499,17 @@ class LiveKernel(object):
         self.out("o sig %d %d %s" % (pid, int(sig), st))
         if st == "g":
             raise ProcessLookupError(errno.ESRCH, "No such process")
-        if sig == 0:
-            return self.real_kill(pid, 0)
-        b = self.bh[pid]
-        if any(d[1] == pid for d in self.deferred):
-            # a SIGKILL is on its way (kill_lat > 0, a few ms in the simulated run): nothing the process could still do about
-            # another signal would happen before it — and DEFER_S must not give it the time
-            return None
-        if sig == signal.SIGKILL:
-            if st != "r":
-                return self.real_kill(pid, sig)
-            self.expect_dead.add(pid)
-            if b.get("kill_lat", 0) > 0:
-                self.deferred.append((time.monotonic() + DEFER_S, pid, sig))
-                return None
-            self.real_kill(pid, sig)
-            self.wait_dead(pid, "SIGKILL, kill_lat 0")
-            return None
-        self.real_kill(pid, sig)
-        if st == "r" and sig not in IGNORED and b.get("term", ["obey", 0])[0] == "obey":
-            self.expect_dead.add(pid)
-        return None
+        return self._send(pid, int(sig), st)
 
     def outside(self, pid, sig):
         """a signal from outside the daemon (xkill)"""
         st = self.state(pid)
         self.out("o sig %d %d %sx" % (pid, int(sig), st))
-        if st == "g" or any(d[1] == pid for d in self.deferred):
-            return
-        try:
-            self.real_kill(pid, sig)
-        except ProcessLookupError:
-            return
-        b = self.bh[pid]
-        if st == "r" and sig != 0 and (sig == signal.SIGKILL or (sig not in IGNORED and b.get("term", ["obey", 0])[0] == "obey")):
-            self.expect_dead.add(pid)
+        if st != "g":
+            try:
+                self._send(pid, int(sig), st)
+            except ProcessLookupError:
+                pass
 
     def die(self, pid, status):
         """the process ends by itself with this wait status"""
@@ -501,31 +524,23 @@ class LiveKernel(object):
             if not 0 <= code < 8:
                 raise ValueError("die with exit code %d is outside the live domain" % code)
             self.real_kill(pid, signal.SIGRTMIN + code)
-        self.expect_dead.add(pid)
+        self.wait_dead(pid, "die")
 
     def sleep(self, secs):
         """time.sleep of the code under test (Watcher.reap_process waits for a process this way)"""
+        ms = max(1, int(round(secs * 1000)))
         self.spin_s += max(secs, 0.0005)
-        self.slept += max(1, int(round(secs * 1000)))
+        self.slept += ms
         if self.spin_s > SPIN_S:
             self.blocked = True
             raise Blocked()
-        self.deliver()
+        self.now += ms
+        self.flush()
         time.sleep(secs)
-        self.deliver()
 
     def quiesce(self):
         """every death that has been caused has happened"""
-        end = time.monotonic() + DEAD_S
-        while True:
-            self.deliver()
-            left = [p for p in self.expect_dead if self.state(p) == "r"]
-            if not left and not self.deferred:
-                break
-            if time.monotonic() > end:
-                self.give_up("processes %r still alive %.0f s after a deadly signal" % (left, DEAD_S))
-            time.sleep(0.001)
-        self.expect_dead = set(left)
+        self.await_dead(None)
 
     def snapshot(self):
         return ",".join("%d:%s" % (p, self.state(p)) for p in sorted(self.bh) if self.state(p) != "g") or "-"
@@ -674,15 +689,13 @@ class Live(sim.Sim, _Side):
         if op[0] == "wake" and self.sleepers:
             self.sleepers.sort(key=lambda s: (s[0], s[1]))
             due = self.real_due.pop(self.sleepers[0][1], 0)
-            end = time.monotonic() + SETTLE_S
-            while True:
-                k.deliver()
-                left = due - time.monotonic()
-                if left <= 0:
-                    break
-                if time.monotonic() > end:
-                    k.give_up("timer not due")
-                time.sleep(min(left, 0.005))
+            k.flush()
+            left = due - time.monotonic()
+            if left > SETTLE_S:
+                k.give_up("timer of %.1f s" % left)
+            if left > 0:
+                time.sleep(left)
+            k.await_dead(max(k.now, self.sleepers[0][0]))
         elif op[0] == "die":
             k.begin_step()
             k.die(op[1], op[2])
@@ -694,6 +707,8 @@ class Live(sim.Sim, _Side):
         sim.Sim.apply(self, op)
         if k.inconclusive:
             raise Inconclusive(k.inconclusive)
+        if not self.blocked:
+            k.flush()                         # the step is over: held signals reach the kernel
 
     def _pid(self, p):
         if isinstance(p, bool) or not isinstance(p, int):
@@ -731,7 +746,7 @@ class Live(sim.Sim, _Side):
 
     def kill_everything(self):
         k = self.k
-        k.deferred = []
+        k.held = {}
         for pid in list(k.bh):
             if k.state(pid) == "r":
                 try:
@@ -840,6 +855,13 @@ def run_live(case, pidmap, timeout=SCENARIO_S):
                 for s in (signal.SIGALRM, signal.SIGTERM, signal.SIGINT, signal.SIGQUIT, signal.SIGCHLD, signal.SIGHUP):
                     signal.signal(s, signal.SIG_DFL)
                 signal.alarm(int(timeout) + 5)                     # dead-man timer of the daemon process itself
+                try:
+                    import ctypes
+                    ctypes.CDLL(None).prctl(1, signal.SIGKILL, 0, 0, 0)    # PR_SET_PDEATHSIG: gone with the check process
+                    if os.getppid() != me:
+                        os._exit(0)
+                except Exception:
+                    pass
                 try:
                     res = _daemon_main(case, pidmap, tag)
                 except BaseException as e:
